@@ -251,7 +251,8 @@ Definition step (st : state) (o : op) : state * obs :=
       | None => (st, mkObs (Raise NotifierNotFound) [] [])
       end
   | AddTrait x f =>
-      if t x f then quiet st                          (* the harness never re-adds a trait *)
+      if t x f then quiet st                          (* an existing trait is replaced by a clone that takes
+                                                         over the old trait's notifiers; no trait_added event *)
       else
         let t' := add_trait t x f in
         let '(H', ks) := added_loop t' h x f (on_slot (st_hooks st) x TA) [] (st_hooks st) in
@@ -347,7 +348,8 @@ Definition op_hyp (st : state) (o : op) : bool :=
   match o with
   | DelCont _ _ => false      (* outside the theorems: the double notification breaks the invariant *)
   | AddTrait x f =>          (* a new trait has no value yet; nodes naming it carry the trait_added graph *)
-      negb (t x f) && is_nil_b (h x f) && forallb (fun r : reg => wf_dyn f (snd r)) rs
+      (* re-adding an existing trait keeps its notifiers (has_traits.py add_trait l.2843-2848): nothing changes *)
+      t x f || (is_nil_b (h x f) && forallb (fun r : reg => wf_dyn f (snd r)) rs)
   | Observe _ _ _ => true
   | Unobserve k r g => existsb (reg_eqb ((k, r), g)) rs
   | ObserveAll _ _ _ => true
